@@ -32,6 +32,9 @@ CLAIMED = {
  'C05': dict(level='model_checking', technique='bounded symbolic execution (z3) with a justification oracle computed from two from-scratch reference traces; invoked => justified as a validity query; strict unchanged rebuilds',
              text='For every committed build of histories B.M.B.B.B each function invocation in the next build must be justified (no successful record, changed observation trace in its recorded subtree, changed output, nested setup failure); unchanged rebuilds may only re-run calls that raised, must not rewrite outputs (inode, mtime) and must return an equal value.',
              note="Trusted: environment model, reference model and its traces as the definition of 'observed', z3."),
+ 'C10': dict(level='model_checking', technique='bounded symbolic execution (z3) of one build_file call from symbolic states of the target and all ancestors, with injected mkdir failures; contract assertions plus comparison with the reference',
+             text='Target and every ancestor are symbolic (absent, foreign file, foreign directory, stale output, stale directory), the failure mode and the level at which mkdir fails are holes; success and failure clauses of the contract are asserted directly on the real state and the virtual view right after the call and on the tree after the build.',
+             note='Trusted: environment model, reference model, z3; over-long names modelled as a failing mkdir.'),
 }
 NA_REASON = 'check not built yet in this round (work in progress; see DESIGN.md section 12)'
 
